@@ -51,7 +51,7 @@ def load_base(V, heap, lv):
         return heap.get(('cell', ty))[ref]
     if lv.kind == 'idx':
         ty, s, i = lv.data
-        return heap.get(('el', ty))[S.arr(s)][S.off(s) + i]
+        return heap.get(('el', ty))[S.arr(s)][w.ix(S.off(s), i)]
     if lv.kind == 'global':
         return heap.get(('g', lv.data[0], lv.data[1]))
     raise OutOfSubset('lvalue kind')
@@ -72,7 +72,7 @@ def store_base(V, heap, lv, val):
         ty, s, i = lv.data
         key = ('el', ty)
         E = heap.get(key)
-        heap.set(key, z3.Store(E, S.arr(s), z3.Store(E[S.arr(s)], S.off(s) + i, val)))
+        heap.set(key, z3.Store(E, S.arr(s), z3.Store(E[S.arr(s)], w.ix(S.off(s), i), val)))
     elif lv.kind == 'global':
         heap.set(('g', lv.data[0], lv.data[1]), val)
     else:
